@@ -468,6 +468,37 @@ func extractC01() *lean {
 	}
 	l.def("storeCredentialVerifiesSignatureUnconditionally", "Bool", map[bool]string{true: "true", false: "false"}[uncond], uncond)
 
+	// which verification relationship every key lookup of the verifier asks for (a constant, never a field of the document), and
+	// what NewVerifier wires the status list verifier's VerifySignature to
+	var lookups []string
+	for _, pf := range []*ast.File{sig, ver} {
+		for _, d := range pf.Decls {
+			fd, ok := d.(*ast.FuncDecl)
+			if !ok || fd.Body == nil {
+				continue
+			}
+			ast.Inspect(fd.Body, func(n ast.Node) bool {
+				if ce, ok := n.(*ast.CallExpr); ok {
+					if sel, ok := ce.Fun.(*ast.SelectorExpr); ok && sel.Sel.Name == "ResolveKeyByID" && len(ce.Args) == 3 {
+						lookups = append(lookups, fd.Name.Name+":"+c01Expr(ce.Args[2]))
+					}
+				}
+				return true
+			})
+		}
+	}
+	l.def("keyLookupRelations", "List String", leanStrList(lookups), lookups)
+	var wiring []string
+	if fd := funcDecl(ver, "NewVerifier"); fd != nil {
+		ast.Inspect(fd, func(n ast.Node) bool {
+			if as, ok := n.(*ast.AssignStmt); ok && len(as.Lhs) == 1 && strings.Contains(c01Expr(as.Lhs[0]), "credentialStatus.") {
+				wiring = append(wiring, c01Stmt(as))
+			}
+			return true
+		})
+	}
+	l.def("newVerifierStatusListWiring", "List String", leanStrList(wiring), wiring)
+
 	// trust.Config: the return sequences, and whether RemoveTrust drops EVERY entry equal to the issuer
 	// (a loop over the type's list that keeps the entries `!= issuer`), not just one occurrence
 	_, tr := parseFile("vcr/trust/trust.go")
